@@ -18,7 +18,7 @@ ASSUMPTIONS = [
     "stray files that do not have the <2>/<rest> layout are outside the property",
 ]
 MONITORS = "independent before/after os.walk listing of the store compared with a set-difference model; return value; byte snapshot of survivors"
-REQUIRED_COUNTERS = ["file_objects_with_a_directory_twin", "collecting_handle_wrote_first", "listings_from_store_of_other_md5_flavour", "unpacked_dirs_planted", "repeat_calls_in_one_process", "stale_listing_loaded_before_gc", "path_spelling/trailing-slash", "path_spelling/dotdot", "nfc_nfd_sibling_listings", "used_as/generator", "used_as/iterator", "gc_calls", "expanding_calls_with_used_dir", "dry_calls", "readonly_calls", "real_removals", "foreign_algo_ids_in_used"]
+REQUIRED_COUNTERS = ["stores_with_a_partial_existence_index", "used_as/generator-bound-to-its-thread", "used_as/generator-that-fails", "calls_relying_on_the_default_mode_with_cache_odb", "file_objects_with_a_directory_twin", "collecting_handle_wrote_first", "listings_from_store_of_other_md5_flavour", "unpacked_dirs_planted", "repeat_calls_in_one_process", "stale_listing_loaded_before_gc", "path_spelling/trailing-slash", "path_spelling/dotdot", "nfc_nfd_sibling_listings", "used_as/generator", "used_as/iterator", "gc_calls", "expanding_calls_with_used_dir", "dry_calls", "readonly_calls", "real_removals", "foreign_algo_ids_in_used"]
 
 
 def _put(root, oid, data, mode):
@@ -152,7 +152,19 @@ def run_shard(ctx):
                       "dotdot": os.path.join(pdir, "x", "..", pbase)}[spelling]
             if spelling == "dotdot":
                 os.makedirs(os.path.join(pdir, "x"), exist_ok=True)
-            odb = env.odb_of_class(cls, opened, hash_name=algo, **({"read_only": True} if read_only else {}))
+            indexed = (not read_only) and rng.random() < 0.15
+            odb = env.odb_of_class(cls, opened, hash_name=algo, **({"read_only": True} if read_only else {}), **({"tmp_dir": os.path.join(d, "store-tmp")} if indexed else {}))
+            if indexed:
+                # the store keeps an index of what earlier transfers delivered (tmp_dir configured): it knows some of the objects -
+                # what else lies in the store arrived without it
+                from dvc_data.hashfile.db import get_index as _get_index
+
+                known_ = [o_ for o_ in sorted(os.listdir(root)) if len(o_) == 2]
+                some_ = [p2_ + f_ for p2_ in known_ for f_ in sorted(os.listdir(os.path.join(root, p2_)))]
+                some_ = [o_ for o_ in some_ if rng.random() < 0.5] or some_[:1]
+                _ix = _get_index(odb)
+                _ix.update([o_ for o_ in some_ if o_.endswith(".dir")], [o_ for o_ in some_ if not o_.endswith(".dir")])
+                res.count("stores_with_a_partial_existence_index")
             if not read_only and cls != "remote" and rng.random() < 0.25:
                 # this handle has written to the store before (anything it memoised about the store's layout then is old news now):
                 # a further object arrives through it first, everything under other prefixes was put there by other hands
@@ -251,14 +263,51 @@ def run_shard(ctx):
             res.sample(cfg)
 
             jobs = rng.choice([None, 1, 4])
-            form = rng.choice(["list", "set", "iterator", "generator", "tuple"])
+            form = rng.choice(["list", "set", "iterator", "generator", "tuple", "generator-bound-to-its-thread", "generator-that-fails"])
             res.count(f"used_as/{form}")
             cfg["used_as"] = form
+            import threading as _th
+
+            def bound_(me=_th.get_ident()):
+                # like a database cursor: only the thread that made it may advance it
+                for h in list(used):
+                    if _th.get_ident() != me:
+                        raise RuntimeError("objects of this kind can only be used in the thread that created them")
+                    yield h
+
+            def failing_():
+                lst_ = list(used)
+                for h in lst_[: len(lst_) // 2]:
+                    yield h
+                raise RuntimeError("the caller's listing of used objects broke off")
+
             used_arg = {"list": lambda: list(used), "set": lambda: set(used), "iterator": lambda: iter(list(used)),
-                        "generator": lambda: (h for h in used), "tuple": lambda: tuple(used)}[form]()
+                        "generator": lambda: (h for h in used), "tuple": lambda: tuple(used), "generator-bound-to-its-thread": bound_,
+                        "generator-that-fails": failing_}[form]()
+            # callers that want the default (shallow) mode may simply not say so, with or without naming a cache store
+            mode_kw = {} if (shallow and rng.random() < 0.5) else {"shallow": shallow}
+            if not mode_kw:
+                res.count("calls_relying_on_the_default_mode" + ("_with_cache_odb" if cache_odb is not None else ""))
             try:
-                n = gc(odb, used_arg, jobs=jobs, cache_odb=cache_odb, shallow=shallow, dry=dry)
+                n = gc(odb, used_arg, jobs=jobs, cache_odb=cache_odb, dry=dry, **mode_kw)
                 exc = None
+                if form == "generator-that-fails":
+                    # gc went ahead although it never got the whole list: whatever it believes, nothing the caller was about to list is garbage
+                    res.count("gc_returned_after_the_used_listing_failed")
+                    lost_ = sorted((set(before) - set(store_snapshot(root))) & keep)
+                    if lost_:
+                        res.violation("used-object-removed/after-the-used-listing-failed", f"the caller's iterable of used objects raised half way; gc swallowed that and removed {lost_[:2]}",
+                                      case=case, detail=cfg)
+                    ctx.drop(d)
+                    return
+            except RuntimeError as e:
+                if form != "generator-that-fails":
+                    raise
+                res.count("gc_refused_after_the_used_listing_failed")
+                if store_snapshot(root) != before:
+                    res.violation("refusal-after-removal", f"gc raised {type(e).__name__} (from the caller's iterable) but had already changed the store", case=case, detail=cfg)
+                ctx.drop(d)
+                return
             except ObjectDBPermissionError as e:
                 exc = e
             except (FileNotFoundError, ObjectFormatError) as e:
